@@ -6,7 +6,7 @@
    Not a theorem (outside a Gallina model): "the bytes handed back stay unchanged whatever the store is asked to do
    afterwards" is a statement about the lifetime of Go memory; it is covered only by the retained-slice run of the
    harness (monitor get-returned-slice-changed-later), which found and now guards the fix C04-get-copy-before-close. *)
-From Shisui Require Import Base.Bytes Gen.K_storage Model.Storage Proofs.Storage.
+From Shisui Require Import Base.Bytes Gen.K_storage Model.Storage Model.Hybrid Proofs.Storage Proofs.Hybrid.
 
 (* Every history (puts, gets, restarts, crashes at any cut) runs without error or panic, and everything the store
    holds afterwards - in memory and in every crash image - was put under that id by some OPut of the history. *)
@@ -68,6 +68,72 @@ Print Assumptions C04_size_key_reserved.
 Theorem C04_key_total : forall id node, length node = 32%nat -> exists k, xor_key id node = Ok k /\ length k = 32%nat.
 Proof. exact xor_key_total. Qed.
 Print Assumptions C04_key_total.
+
+(* ---- the routing layers in front of the store (history hybrid store, state wrapper).
+   The ephemeral store is opaque (any state type E, any get/put functions). *)
+
+(* routing depends on the content key only, never on the content id, and Get and Put agree on it *)
+Theorem C04_hybrid_get_routes_by_key : forall (V E : Type) (eph_get : E -> bytes -> bytes -> res (option V))
+    (h : hstore (V:=V) (E:=E)) key id,
+  is_ephemeral key = false -> hget eph_get h key id = bind (get (eternal h) id) (fun r => Ok (FromEternal r)).
+Proof. exact @hget_eternal. Qed.
+Print Assumptions C04_hybrid_get_routes_by_key.
+
+Theorem C04_hybrid_put_routes_by_key : forall (V E : Type) (vlen : V -> N) (dec : bytes -> N)
+    (eph_put : E -> bytes -> bytes -> V -> res E) (h : hstore (V:=V) (E:=E)) key id v,
+  is_ephemeral key = false ->
+  hput vlen dec eph_put h key id v = bind (put vlen dec (eternal h) id v) (fun r =>
+      let '(s', pr, bs) := r in Ok ({| eternal := s'; eph := eph h |}, pr, bs)).
+Proof. exact @hput_eternal. Qed.
+Print Assumptions C04_hybrid_put_routes_by_key.
+
+(* C04_put_then_get through the hybrid store: for every non-ephemeral content key and every valid id a refused put
+   changes nothing; an accepted put makes exactly these bytes readable under this id - through ANY non-ephemeral
+   key - and leaves every other id alone, except for what the prune of the same call removed *)
+Theorem C04_hybrid_put_then_get : forall (V E : Type) (vlen : V -> N) (vhead8 : V -> res N) (dec : bytes -> N)
+    (eph_get : E -> bytes -> bytes -> res (option V)) (eph_put : E -> bytes -> bytes -> V -> res E)
+    Q (h h' : hstore (V:=V) (E:=E)) key id v r bs,
+  Inv vlen Q (eternal h) -> valid_id (node (eternal h)) id -> is_ephemeral key = false ->
+  hput vlen dec eph_put h key id v = Ok (h', r, bs) ->
+  eph h' = eph h /\
+  ((r = Refused /\ h' = h /\ bs = []) \/
+   (r = Stored /\ forall key' id', is_ephemeral key' = false -> valid_id (node (eternal h)) id' ->
+      hget eph_get h' key' id' = (if bytes_eqb id' id then Ok (FromEternal (Some (Item v))) else hget eph_get h key' id') \/
+      (hget eph_get h' key' id' = Ok (FromEternal None) /\ cap (eternal h) < cnt (eternal h) + 32 + vlen v))).
+Proof. exact @hybrid_put_get. Qed.
+Print Assumptions C04_hybrid_put_then_get.
+
+(* a put under an ephemeral key never touches the eternal store *)
+Theorem C04_hybrid_ephemeral_put_frame : forall (V E : Type) (vlen : V -> N) (dec : bytes -> N)
+    (eph_get : E -> bytes -> bytes -> res (option V)) (eph_put : E -> bytes -> bytes -> V -> res E)
+    (h h' : hstore (V:=V) (E:=E)) key id v r bs,
+  is_ephemeral key = true -> hput vlen dec eph_put h key id v = Ok (h', r, bs) ->
+  eternal h' = eternal h /\ bs = [] /\
+  forall key' id', is_ephemeral key' = false -> hget eph_get h' key' id' = hget eph_get h key' id'.
+Proof. exact @hput_ephemeral_frame. Qed.
+Print Assumptions C04_hybrid_ephemeral_put_frame.
+
+(* every hybrid put keeps the invariant of the eternal store, so the history theorems above compose through the layer *)
+Theorem C04_hybrid_put_keeps_invariant : forall (V E : Type) (vlen : V -> N) (vhead8 : V -> res N) (dec : bytes -> N)
+    (eph_get : E -> bytes -> bytes -> res (option V)) (eph_put : E -> bytes -> bytes -> V -> res E) Q (h h' : hstore (V:=V) (E:=E)) key id v r bs,
+  Inv vlen Q (eternal h) -> valid_id (node (eternal h)) id -> hput vlen dec eph_put h key id v = Ok (h', r, bs) ->
+  exists Q' : bytes -> V -> Prop, (forall k x, Q k x -> Q' k x) /\ Inv vlen Q' (eternal h').
+Proof. exact @hybrid_put_inv. Qed.
+Print Assumptions C04_hybrid_put_keeps_invariant.
+
+(* which keys are routed where: a test of the first key byte against the compiled OfferEphemeralType *)
+Theorem C04_history_key_types_route : forall rest,
+  is_ephemeral (x00 :: rest) = false /\ is_ephemeral (x01 :: rest) = false /\ is_ephemeral (x02 :: rest) = false /\
+  is_ephemeral (x03 :: rest) = false /\ is_ephemeral (x04 :: rest) = false /\ is_ephemeral (x05 :: rest) = true /\
+  is_ephemeral [] = false.
+Proof. exact history_key_types_route. Qed.
+Print Assumptions C04_history_key_types_route.
+
+(* the state wrapper's Get is the wrapped store's Get *)
+Theorem C04_state_get_passthrough : forall (V : Type) (s : st (V:=V)) key id, state_get s key id = get s id.
+Proof. exact @state_get_passthrough. Qed.
+Print Assumptions C04_state_get_passthrough.
+
 
 (* the excluded cases, stated not hidden *)
 Theorem C04_excluded_node_id_collides : 
